@@ -113,6 +113,18 @@ class CoderState(object):
 
         self.idx_value = 0  # only needed for encoder
 
+        self.reset_template_state()
+
+    # noinspection PyAttributeOutsideInit
+    def reset_template_state(self):
+        """
+        Initialise everything the operator descriptors of a template change while
+        the template is applied (modifiers, bitmaps, back references). Each subset
+        of uncompressed data is a fresh application of the template, so none of it
+        may carry over from one subset to the next, e.g. when the template ends
+        without cancelling an operator or when the descriptors in front of a bitmap
+        differ between subsets because of delayed replication.
+        """
         self.nbits_offset = 0  # 201
         self.scale_offset = 0  # 202
 
@@ -152,10 +164,11 @@ class CoderState(object):
         This function is only useful for uncompressed data.
         """
         self.idx_subset = idx_subset
-        # Reset new reference values to empty at start of each subset as anything defined
-        # from previous subset should NOT affect this subset. Also we do not
-        # care about what is defined in previous subset so we are not saving them.
-        self.new_refvals = {}
+        # Reset new reference values, operator modifiers, bitmaps and back references
+        # at start of each subset as anything defined from previous subset should NOT
+        # affect this subset. Also we do not care about what is defined in previous
+        # subset so we are not saving them.
+        self.reset_template_state()
         self.decoded_descriptors = self.decoded_descriptors_all_subsets[idx_subset]
         self.decoded_values = self.decoded_values_all_subsets[idx_subset]
         self.bitmap_links = self.bitmap_links_all_subsets[idx_subset]
